@@ -4,6 +4,9 @@
 # then keep it under /verif/seeded/<id>/ and remove the worktree.
 id="$1"; wt="/tmp/wt_$id"; out="/tmp/seed_$id"
 [ -f "$out/patch.diff" ] || { echo "$id: no patch.diff"; exit 3; }
+if [ ! -d "$wt" ]; then
+  git -C /repo worktree add --detach "$wt" HEAD >/dev/null 2>&1 && git -C "$wt" apply "$out/patch.diff" || { echo "$id: cannot recreate worktree"; exit 3; }
+fi
 git -C "$wt" diff > "/tmp/seed_$id/patch.check.diff"
 cmp -s "$out/patch.diff" "/tmp/seed_$id/patch.check.diff" || { echo "$id: patch.diff differs from the worktree diff (using the worktree diff)"; cp "/tmp/seed_$id/patch.check.diff" "$out/patch.diff"; }
 tests=$(cd "$wt" && /venv/bin/python -m pytest -q -p no:cacheprovider --timeout=900 --continue-on-collection-errors 2>&1 | tail -1 | sed 's/\x1b\[[0-9;]*m//g')
